@@ -158,6 +158,20 @@ fn leaves(env: &Env) -> Vec<(Expr, bool)> {
             true,
         ),
         (Expr::Cmp(Path::field(f("l_tru_m")), CmpOp::IsTrue), true),
+        // a call with an EMPTY argument list is an argument list all the same
+        (
+            Expr::Cmp(
+                Path {
+                    base: Base::Call(Box::new(Call {
+                        func: env.func("zero1").unwrap(),
+                        args: vec![],
+                    })),
+                    idx: vec![],
+                },
+                CmpOp::Ord(OrdOp::Eq, Lit::Int(7)),
+            ),
+            false,
+        ),
     ]
 }
 
@@ -516,6 +530,31 @@ pub fn run(run: &Run) {
             }
             run.distinct(hash_str(&text));
         });
+        // a call without arguments is one level, however it is spaced
+        for (k, text) in ["zero1()", "zero2 ( )", "zero1(\n)", "idn1(zero1())", "idn1(idn2(zero2( )))"].iter().enumerate() {
+            let n = 1 + text.matches("idn").count();
+            for d in 0..=4u16 {
+                let _ = take_max_nesting();
+                let res = guard(|| {
+                    let mut parser = eng.scheme.parser();
+                    parser.set_max_nesting_depth(d);
+                    parser.parse_value(text).map(|_| ()).map_err(|e| e.to_string())
+                });
+                let reached = take_max_nesting();
+                match res {
+                    Ok(Ok(())) if n <= d as usize && reached as usize == n => {}
+                    Ok(Err(e)) if n > d as usize && limit_error(&e, d) => {}
+                    other => run.violation(
+                        "C13/value-expression-limit/empty-argument-list",
+                        "accept-iff-nesting<=d",
+                        "values",
+                        100 + k as u64,
+                        json!({"value_expr": text, "limit": d, "nesting": n, "max_depth_reached": reached,
+                               "outcome": format!("{:?}", other)}),
+                    ),
+                }
+            }
+        }
     }
 
     // ---- larger limits: random shapes at depth d-1, d, d+1; default parser
